@@ -81,7 +81,41 @@ def main():
     sys.exit(rc)
 
 
+def run_custom(mod, ctx, prop, tier, seed, t0, args):
+    """properties decided by z3 on real outputs (translation validation): the module does exploration + native confirmation itself"""
+    r = mod.custom_run(ctx, tier, seed)
+    findings = load_findings()
+    known = {(f['property'], f['key']): f for f in findings.get('findings', [])}
+    new_viol = []; known_hit = []
+    for k, v, detail in r['confirmed']:
+        if (prop, k) in known: known_hit.append((k, known[(prop, k)]))
+        else: new_viol.append((k, v, detail))
+    for k, f in known_hit: print('KNOWN-FINDING: property=%s %s' % (prop, f.get('what', k)))
+    os.makedirs(os.path.join(HERE, 'replays'), exist_ok=True)
+    for k, v, detail in new_viol[:40]:
+        h = hashlib.sha1(k.encode()).hexdigest()[:10]
+        path = os.path.join(HERE, 'replays', '%s-%s.json' % (prop, h))
+        json.dump({'property': prop, 'key': k, 'violation': v, 'native': detail, 'rerun': 'python3-vt /verif/check.py %s --replay %s' % (prop, path)}, open(path, 'w'), indent=1, default=str)
+        print('VIOLATION property=%s replay=%s' % (prop, path))
+        print('   what: %s | %s' % (v.get('kind'), str(v.get('what'))[:300]))
+    cov = r['coverage']
+    cov['known_findings_hit'] = [k for k, _ in known_hit]
+    cov['inconclusive'] = r.get('inconclusive', [])
+    cov['encoding_source'] = 'native library built from %s working tree this run (%.1fs); MIR dump %.1fs' % (build.REPO, ctx.native_s, ctx.mir_s)
+    ev = {'property_id': prop, 'tier': tier, 'seed': seed, 'level': r['level'], 'coverage': cov, 'assumptions': r.get('assumptions', []),
+          'wall_s': round(time.time() - t0, 1), 'violations': len(new_viol)}
+    os.makedirs(os.path.join(HERE, 'evidence'), exist_ok=True)
+    json.dump(ev, open(os.path.join(HERE, 'evidence', prop + '.json'), 'w'), indent=1, default=str)
+    print('%s tier=%s seed=%d: %s in %.1fs' % (prop, tier, seed, r.get('summary', ''), time.time() - t0))
+    if new_viol: return 1
+    if r.get('inconclusive'):
+        for m in r['inconclusive']: print('INCONCLUSIVE: ' + m)
+        return 2
+    return 0
+
+
 def run_check(mod, ctx, prop, tier, seed, t0, args):
+    if hasattr(mod, 'custom_run'): return run_custom(mod, ctx, prop, tier, seed, t0, args)
     spec = mod.spec(ctx, tier, seed)
     jobs = spec['jobs']
     if args.only: jobs = [j for j in jobs if args.only in j.name or j.canary]
@@ -143,6 +177,17 @@ def run_check(mod, ctx, prop, tier, seed, t0, args):
             else: new_viol.append((k, v, detail))
         else:
             not_repro.append((k, v, st, detail))
+    # ---- optional second engine of the same family: z3 judging real outputs (other back-ends, larger instances)
+    extra_cov = {}
+    if spec.get('extra'):
+        try:
+            conf, extra_cov, inc = spec['extra'](ctx)
+        except Exception as ex:
+            conf, extra_cov, inc = [], {}, ['extra engine crashed: %r %s' % (ex, traceback.format_exc(limit=8))]
+        inconclusive.extend(inc)
+        for k, v, detail in conf:
+            if (prop, k) in known: known_hit.append((k, known[(prop, k)]))
+            else: new_viol.append((k, v, detail))
     if not_repro:
         k, v, st, detail = not_repro[0]
         inconclusive.append('%d counterexamples did not reproduce natively (model/engine defect, not reported as violation); first: %s %s %s'
@@ -200,6 +245,7 @@ def run_check(mod, ctx, prop, tier, seed, t0, args):
         'notes': ctx.notes,
     }
     cov.update(spec.get('extra_coverage', {}))
+    cov.update(extra_cov)
     ev = {'property_id': prop, 'tier': tier, 'seed': seed, 'level': spec.get('level', 'model_checking'), 'coverage': cov,
           'assumptions': spec.get('assumptions', []), 'wall_s': round(wall, 1), 'violations': len(new_viol)}
     os.makedirs(os.path.join(HERE, 'evidence'), exist_ok=True)
